@@ -68,7 +68,7 @@ impl<T: Clone + Copy + Number> Matrix<T> {
     #[inline]
     pub fn set_col(&mut self, col: usize, vec: Vector<T> ) {
         if vec.size() != self.rows { panic!( "Matrix size error in set_col" ); }
-        if self.rows <= col { panic!( "Matrix range error in set_col" ); }
+        if self.cols <= col { panic!( "Matrix range error in set_col" ); }
         for i in 0..self.rows {
             self[(i, col)] = vec[ i ];
         }
